@@ -583,6 +583,10 @@ func gen(stream string, seed uint64, n int, out string) {
 		genVhosts(seed, n, out)
 		return
 	}
+	if stream == "rds" {
+		genRds(seed, n, out)
+		return
+	}
 	root := wire.NewRng(seed*1000003 + uint64(len(stream)))
 	o := wire.Create(out)
 	defer o.Close()
@@ -680,6 +684,10 @@ func gen(stream string, seed uint64, n int, out string) {
 func oracle(stream, in, out string) {
 	if stream == "vhosts" {
 		oracleVhosts(in, out)
+		return
+	}
+	if stream == "rds" {
+		oracleRds(in, out)
 		return
 	}
 	lines := wire.ReadLines(in)
